@@ -31,6 +31,16 @@ func VerifGC(r Repo) error {
 func VerifGCPass(s Store, cur, prev time.Time) error {
 	switch x := s.(type) {
 	case *dir:
+		// as in VerifGC: every collection of the pass re-reads index.json.  The cached modification time is
+		// what the pass uses to skip idle repositories, so it is set to a recent time different from the file's.
+		names, _ := x.repos.List()
+		for _, n := range names {
+			if dr, err := x.repos.Get(n); err == nil {
+				dr.mu.Lock()
+				dr.timeMod = time.Now().Add(-time.Nanosecond)
+				dr.mu.Unlock()
+			}
+		}
 		return x.gc(cur, prev)
 	case *mem:
 		return x.gc(cur, prev)
